@@ -20,10 +20,12 @@ func init() {
 			"short strings: nil, empty, all strings of 1-2 bytes, all 3-byte strings (thorough) / 3-byte strings over a 40-symbol alphabet (quick)",
 			"histories: all sequences of 6 payloads over a 7-payload spread of the corpus, and all sequences over a corpus of about 40 payloads per codec from the reference encoders (every descriptor option, fragment start/middle/end, aggregation, PACI, truncated and malformed ones)",
 			"per-packet formats (VP8, VP9, H265, Opus): return values always, and every exported field / accessor on success, are compared with a fresh receiver given the same payload; nil vs empty slices are not distinguished. Stateful formats (H264Packet, AV1Depacketizer): an instance whose input buffers are overwritten after every call must give the same outputs as a twin fed pristine copies",
+			"wide structures: VP9 scalability structures for EVERY N_G 0..255 x five P_DIFF-count patterns x N_S {0,7}; STAP-A / H265 aggregation packets (with and without DONL) of {1,2,3,16,255,256,257,300} units; AV1 packets of {1,2,3,4,32,255,256,300} elements in the W=0 form and W=1..3; each at every truncation below 24 bytes, every 7th and the last 6; AV1 OBUs of {16383, 16384, 2^21-1, 2^21, 2^21+5} bytes delivered as the payloader's fragment trains to AV1Depacketizer and AV1Packet+frame.AV1",
 		},
 		Scenarios: []mc.Scenario{
 			{Name: "short-strings", Tiers: "qt", ShardDepth: 2, Run: c09Short},
 			{Name: "payload-histories", Tiers: "qt", ShardDepth: 3, Run: c09Histories},
+			{Name: "wide-structures-every-count", Tiers: "qt", ShardDepth: 3, Run: c09Wide},
 		},
 	})
 }
@@ -440,4 +442,141 @@ func c08SubCorpusOf(all [][]byte, k int) [][]byte {
 		out = append(out, all[i*len(all)/k])
 	}
 	return out
+}
+
+// c09WideStruct builds the idx-th wide structure of a family; n is the number of structures.
+func c09WideStruct(fam, idx int) (payload []byte, desc string, n int) {
+	counts := []int{1, 2, 3, 16, 255, 256, 257, 300}
+	switch fam {
+	case 0: // VP9: every N_G, five R patterns, N_S 0 / 7
+		n = 256 * 5 * 2
+		ng, rpat, ns := idx%256, idx/256%5, idx/256/5
+		d := &ref.VP9Desc{V: true, G: true, B: true, I: true, PictureID: 0x21, NG: uint8(ng)}
+		if ns == 1 {
+			d.NS, d.Y = 7, true
+			for i := 0; i < 8; i++ {
+				d.Width, d.Height = append(d.Width, uint16(100+i)), append(d.Height, uint16(200+i))
+			}
+		}
+		for i := 0; i < ng; i++ {
+			r := []int{0, 1, 2, 3, i % 4}[rpat]
+			d.PGTID, d.PGU = append(d.PGTID, uint8(i%8)), append(d.PGU, i%2 == 0)
+			pd := []uint8{}
+			for j := 0; j < r; j++ {
+				pd = append(pd, uint8(i+j+1))
+			}
+			d.PGPDiff = append(d.PGPDiff, pd)
+		}
+		return append(d.Encode(), 0xAB, 0xCD), fmt.Sprintf("VP9 descriptor N_G=%d R-pattern %d N_S=%d", ng, rpat, d.NS), n
+	case 1: // H264 STAP-A
+		n = len(counts) * 2
+		k, sz := counts[idx%len(counts)], 2+idx/len(counts)
+		var us [][]byte
+		for i := 0; i < k; i++ {
+			us = append(us, ref.H264Unit(uint8(1+i%5), 2, sz, byte(i)))
+		}
+		return ref.H264StapAPayload(us), fmt.Sprintf("STAP-A of %d units of %d bytes", k, sz), n
+	case 2: // H265 AP
+		n = len(counts) * 2
+		k, donl := counts[idx%len(counts)], idx/len(counts) == 1
+		var us [][]byte
+		var donds []uint8
+		for i := 0; i < k; i++ {
+			us = append(us, ref.H265Unit(uint8(1+i%9), 0, 1, 3+i%2, byte(i)))
+			if i > 0 {
+				donds = append(donds, uint8(i))
+			}
+		}
+		var dv *uint16
+		if donl {
+			v := uint16(0xFFFE)
+			dv = &v
+		} else {
+			donds = nil
+		}
+		return ref.H265AP(us, dv, donds), fmt.Sprintf("H265 AP of %d units donl=%v", k, donl), n
+	default: // AV1 aggregation packets
+		ecounts := []int{1, 2, 3, 4, 32, 255, 256, 300}
+		n = len(ecounts) + 3
+		if idx >= len(ecounts) { // W = 1..3: last element without a length
+			w := idx - len(ecounts) + 1
+			p := []byte{byte(w<<4) | 0x08}
+			for i := 0; i < w; i++ {
+				e := (&ref.OBU{Type: 6, Payload: fill(3+i, byte(i))}).Bytes(false)
+				if i < w-1 {
+					p = append(p, ref.Leb128(uint64(len(e)))...)
+				}
+				p = append(p, e...)
+			}
+			return p, fmt.Sprintf("AV1 packet W=%d", w), n
+		}
+		k := ecounts[idx]
+		p := []byte{0x08}
+		for i := 0; i < k; i++ {
+			e := (&ref.OBU{Type: uint8(3 + i%4), Payload: fill(1+i%3, byte(i))}).Bytes(false)
+			p = append(p, ref.Leb128(uint64(len(e)))...)
+			p = append(p, e...)
+		}
+		return p, fmt.Sprintf("AV1 packet W=0 with %d elements", k), n
+	}
+}
+
+var c09WideKinds = [][]int{{5}, {0, 1}, {2, 3}, {6, 7, 8}}
+
+var c09BigOBU = []int{16383, 16384, 1<<21 - 1, 1 << 21, 1<<21 + 5}
+
+func c09Wide(c *mc.Ctx) {
+	fam := c.Pick(5)
+	if fam == 4 {
+		// large OBUs through the stateful AV1 receivers
+		kind := 6 + c.Pick(3)
+		size := mc.From(c, c09BigOBU)
+		mtu := mc.From(c, []int{1200, 65535})
+		if mtu == 1200 && size > 1<<20 && !c.Thorough() {
+			mtu = 9000
+		}
+		stream := ref.AV1Stream([]ref.OBU{{Type: 1, Payload: fill(4, 1)}, {Type: 6, Payload: fill(size, 3)}}, c.Bool())
+		pkts := (&codecs.AV1Payloader{}).Payload(uint16(mtu), stream)
+		if c.Verbose() {
+			c.Notef("%s: OBU of %d bytes as %d packets at mtu %d", c09KindNames[kind], size, len(pkts), mtu)
+		}
+		a, b := c09New(kind), c09New(kind)
+		total := 0
+		for i, pk := range pkts {
+			buf := clone(pk)
+			out, err, _ := a.step(buf, nil)
+			keep := clone(out)
+			scribble(buf)
+			bo, berr, _ := b.step(clone(pk), nil)
+			if (err == nil) != (berr == nil) || !bytes.Equal(keep, bo) {
+				c.Failf("retained-caller-memory", "%s, OBU of %d bytes at mtu %d: packet %d on the instance whose earlier buffers were overwritten gives %d bytes err=%v, the twin %d bytes err=%v", c09KindNames[kind], size, mtu, i, len(keep), err, len(bo), berr)
+			}
+			total += len(out)
+		}
+		c.Ops(2 * len(pkts))
+		if total > size {
+			c.NonTrivial()
+		}
+		c.Outcome(fmt.Sprintf("%s big-obu out>=size:%v", c09KindNames[kind], total > size))
+		return
+	}
+	_, _, n := c09WideStruct(fam, 0)
+	idx := c.Pick(n)
+	kinds := c09WideKinds[fam]
+	kind := kinds[c.Pick(len(kinds))]
+	full, desc, _ := c09WideStruct(fam, idx)
+	if c.Verbose() {
+		c.Notef("%s: %s (%d bytes)", c09KindNames[kind], desc, len(full))
+	}
+	cases := 0
+	for cut := 0; cut <= len(full); cut++ {
+		if cut >= 24 && cut%7 != 0 && cut < len(full)-6 {
+			continue
+		}
+		c09Single(c, kind, full[:cut])
+		cases++
+	}
+	c.Cases(cases - 1)
+	c.NonTrivial()
+	c.Outcome(c09KindNames[kind] + " wide")
 }
